@@ -138,6 +138,11 @@ c12_Requests == { RqF(<<FW("a", 1, 1), FW("b", 2, 1)>>, TRUE),                  
                   RqF(<<FW("a", 3, 2), FW("c", 1, 1)>>, FALSE),                     \* all at once
                   Rq("status", "b", FALSE), Rq("list", "", FALSE), Rq("numwatchers", "", FALSE) }
 
+\* ---- C02 / C10 with on_demand watchers: socket events start them (and only them), a stopped watcher stays stopped
+Wod(nm, np) == W0(nm, np, 1, 0) @@ [od |-> TRUE]
+c02od_Configs == { D(3, 0, <<Wod("od", 1), W0("w2", 1, 1, 0)>>), D(3, 0, <<[W0("w2", 1, 0, 0) EXCEPT !.prio = 1], Wod("od", 2)>>) }
+c02od_Requests == { Rq("stop", "w2", TRUE), Rq("stop", "od", FALSE), Rq("start", "od", FALSE), Rq("status", "w2", FALSE) }
+
 st_one == {256}
 st_exit == {0, 256, 65280}
 st_sig  == {15, 9, 11}
